@@ -273,10 +273,13 @@ class Session:
         elif k == "addnode":
             P_ = self.mnode(op["parent"])
             src = m.find(op["src"])
-            outcome = m.add_node(P_, src, bool(op.get("deep")), self._before_model(op.get("before")), op.get("kind"))
+            outcome = m.add_node(P_, src, bool(op.get("deep")), self._before_model(op.get("before")), op.get("kind"),
+                                 node_id=op.get("node_id"))
             tgt = self.real(op["parent"])
             if self.typed and op.get("kind") is not None:
                 kw["kind"] = op["kind"]
+            if op.get("node_id") is not None:
+                kw["node_id"] = op["node_id"]
             if op.get("via") == "copy_to":
                 call = lambda: self.bind[op["src"]].copy_to(tgt, before=self._before_real(op.get("before")), deep=bool(op.get("deep")))
             else:
